@@ -327,6 +327,9 @@ func gqid(buf []byte, qid *Qid) []byte {
 
 func gstat(buf []byte, d *Dir, dotu bool) ([]byte, error) {
 	sz := len(buf)
+	if sz < 41 {
+		return nil, &Error{"buffer too short for stat", EINVAL}
+	}
 	d.Size, buf = gint16(buf)
 	d.Type, buf = gint16(buf)
 	d.Dev, buf = gint32(buf)
@@ -362,6 +365,9 @@ func gstat(buf []byte, d *Dir, dotu bool) ([]byte, error) {
 			return nil, &Error{"d.Ext failed", EINVAL}
 		}
 
+		if len(buf) < 12 {
+			return nil, &Error{"d.Uidnum failed", EINVAL}
+		}
 		d.Uidnum, buf = gint32(buf)
 		d.Gidnum, buf = gint32(buf)
 		d.Muidnum, buf = gint32(buf)
